@@ -402,6 +402,30 @@ class CFG:
                     stack.append((t, path + [t]))
         return None
 
+    def control_equivalent(self, a: ast.AST, b: ast.AST, loop: Optional[ast.AST] = None) -> bool:
+        """a and b execute together: within one iteration of `loop` (or one call, if loop is None) every path through
+        one of them passes the other.  Paths that raise are disregarded."""
+        na, nb = self.node_of(a).id, self.node_of(b).id
+        if na == nb:
+            return True
+        if loop is not None:
+            h = self.node_of(loop).id
+            starts, stops = h, {h, self.exit.id}
+            ok_edge = lambda x, y, lab: not (x == h and lab == "done")
+        else:
+            starts, stops = self.entry.id, {self.exit.id}
+            ok_edge = None
+        # from the start of the iteration: reaching a without b before it, and then leaving without b after it (and vice versa)
+        for x, y in ((na, nb), (nb, na)):
+            # a path start -> x avoiding y, followed by a path x -> stop avoiding y  == x executes in an iteration without y
+            p1 = self.path_avoiding(starts, {x}, {y}, edge_ok=ok_edge)
+            if p1 is None:
+                continue  # x is always preceded by y: fine in this direction
+            p2 = self.path_avoiding(x, stops, {y})
+            if p2 is not None:
+                return False
+        return True
+
     def describe_path(self, path: List[int]) -> str:
         parts = []
         for i in path:
